@@ -137,6 +137,22 @@ def w_diag(ctx, rng, idx, param):
             if i not in sub:
                 cols[i] = int(rng.integers(1, 3))
     a = gen.rand_tt(rng, rows, cols, gen.rand_ranks(rng, d, 3), gen.rand_cplx(rng))
+    if rng.random() < 0.25:
+        # tiny / huge overall magnitude, or the scale spread unevenly over the cores (1e15 in one core, 1e-15 in another)
+        with probe.oracle():
+            k = int(rng.integers(0, 3))
+            cs = [np.array(c, copy=True) for c in a.cores]
+            if k == 0:
+                j = int(rng.integers(0, d))
+                cs[j] = cs[j] * 10.0 ** float(rng.uniform(-100, -20))
+            elif k == 1:
+                for j in range(d):
+                    cs[j] = cs[j] * 10.0 ** float(rng.uniform(-30, -10))
+            elif d > 1:
+                i, j = (int(v) for v in rng.choice(d, size=2, replace=False))
+                e = float(rng.uniform(10, 16))
+                cs[i], cs[j] = cs[i] * 10.0 ** e, cs[j] * 10.0 ** (-e)
+            a = tt.TT(cs)
     ctx.describe({'op': 'diag', 'rows': rows, 'cols': cols, 'ranks': a.ranks, 'diag_list': sub})
     call('TT.diag', lambda: a.diag(sub), prop=P)
 
